@@ -253,6 +253,19 @@ func runC18(c *core.Ctx) {
 			c.Failf("C18/gather-refused", "cycle %d: GatherCandidates in state New returned %v", cycle, err)
 			return
 		}
+		if t.Bias(1, 4, "immediate-second-gather") {
+			// back-to-back: the second call arrives before the first cycle's goroutine has advanced the state.
+			// It may be refused, or it may supersede the first cycle - but two cycles never overlap, which the
+			// candidate stream shows (one nil, nothing after it, one host candidate per address and transport).
+			err := ag.A.GatherCandidates()
+			c.Fault("back-to-back-gather")
+			if err == nil {
+				c.Probe("back-to-back-gather-accepted")
+			} else if !errors.Is(err, ice.ErrMultipleGatherAttempted) {
+				c.Failf("C18/second-gather-error", "back-to-back GatherCandidates returned %v", err)
+				return
+			}
+		}
 		backToBack := t.Bias(1, 3, "backtoback")
 		restarted := false
 		for step := 0; step < 200 && !c.Failed(); step++ {
@@ -361,6 +374,7 @@ type c18Oracle struct {
 	failedIPs map[netip.Addr]bool // addresses on which the simulator failed a listen (no completeness demanded)
 	host      *simnet.Host
 	failSeen  int
+	sockSeen  int
 }
 
 func (o *c18Oracle) beginCycle(ufrag string) {
@@ -401,6 +415,23 @@ func (o *c18Oracle) observe() {
 		}
 		o.states = append(o.states, st)
 	}
+	// A socket bound to the wildcard address sits on every interface of the host. With an interface or IP
+	// filter configured that rejects an address the host does have (every filter mode of this check does),
+	// a socket the agent opened itself must therefore be bound to one accepted address.
+	if k.ifaceMode != 0 || k.ipMode != 0 {
+		for _, so := range o.w.Sockets() {
+			if so.Host() != o.host || so.Tag == "service" || so.ID < o.sockSeen {
+				continue
+			}
+			if so.Local.Port() == 5353 {
+				continue // the mDNS responder's own multicast socket, not a candidate's
+			}
+			if (so.Tag == "ListenUDP" || so.Tag == "ListenPacket") && so.Local.Addr().IsUnspecified() {
+				c.Failf("C18/socket-on-wildcard-despite-filter", "the agent opened %s socket #%d on %s although filters are configured that reject an address of this host (%s)", so.Tag, so.ID, so.Local, k)
+			}
+		}
+		o.sockSeen = len(o.w.Sockets())
+	}
 	cs := o.ag.CandSeq()
 	for ; o.candSeen < len(cs); o.candSeen++ {
 		cand := cs[o.candSeen]
@@ -414,8 +445,15 @@ func (o *c18Oracle) observe() {
 		if o.sawNil {
 			c.Failf("C18/candidate-after-nil", "candidate %s published after the end-of-gathering marker", rig.CandAddr(cand))
 		}
-		o.cycleCand = append(o.cycleCand, cand)
 		where := fmt.Sprintf("%s %s (%s)", cand.Type(), rig.CandAddr(cand), k)
+		if cand.Type() == ice.CandidateTypeHost && !k.mdns {
+			for _, prev := range o.cycleCand {
+				if prev.Type() == ice.CandidateTypeHost && prev.NetworkType() == cand.NetworkType() && prev.Address() == cand.Address() && prev.TCPType() == cand.TCPType() {
+					c.Failf("C18/duplicate-host-candidate", "published %s, the cycle already published host %s for that address and transport (two overlapping cycles?)", where, rig.CandAddr(prev))
+				}
+			}
+		}
+		o.cycleCand = append(o.cycleCand, cand)
 		if ext, ok := cand.GetExtension("ufrag"); !ok || ext.Value != o.ufrag {
 			c.Failf("C18/candidate-of-other-cycle", "candidate %s carries ufrag %q, the running cycle's is %q", where, ext.Value, o.ufrag)
 		}
@@ -474,6 +512,9 @@ func (o *c18Oracle) observe() {
 			if ra := cand.RelatedAddress(); ra != nil {
 				if !inRange(ra.Port) {
 					c.Failf("C18/srflx-base-port-outside-range", "published %s with base %s:%d", where, ra.Address, ra.Port)
+				}
+				if b, err := netip.ParseAddr(ra.Address); err == nil && b.IsUnspecified() && (k.ifaceMode != 0 || k.ipMode != 0) {
+					c.Failf("C18/srflx-base-on-wildcard-despite-filter", "published %s with base %s although filters reject an address of this host", where, ra.Address)
 				}
 				if b, err := netip.ParseAddr(ra.Address); err == nil && !b.IsUnspecified() && !isElig(b) {
 					c.Failf("C18/srflx-base-on-ineligible-address", "published %s with base %s", where, ra.Address)
